@@ -18,6 +18,7 @@ import (
 	"net"
 	"net/http"
 	"net/http/httptrace"
+	"net/url"
 	"os"
 	"runtime"
 	"runtime/debug"
@@ -31,6 +32,7 @@ import (
 	"github.com/saucelabs/forwarder/header"
 	"github.com/saucelabs/forwarder/httplog"
 	"github.com/saucelabs/forwarder/log"
+	"github.com/saucelabs/forwarder/ruleset"
 	fslog "github.com/saucelabs/forwarder/log/slog"
 
 	"verifharness/coqfmt"
@@ -59,6 +61,7 @@ type oresp struct {
 	Cuts     []int    // the wire bytes are written in pieces cut at these offsets (sorted)
 	GapMs    int      // pause between the pieces (0 = none); used by the timing scenarios
 	KeepOpen bool     // origin keeps its connection open after this response (false: closes when Framing == "close")
+	Local     bool    // no origin involved: the proxy answers this request itself with Code (407, 403)
 	Break     string  // "chunk-size": after the chunks a malformed chunk-size line follows instead of the last chunk; "gzip": the gzip stream (solicited) is corrupt in the middle
 	onRequest func()  // called by the origin when the request for this response arrives (not part of the replay format)
 	Raw      []string // timing scenarios: the exact pieces the origin writes, GapMs apart (overrides everything else)
@@ -70,6 +73,9 @@ type xreq struct {
 	Proto   string // "HTTP/1.1" | "HTTP/1.0"
 	Conn    string // "" | "close" | "keep-alive"
 	AcceptE string // Accept-Encoding sent by the client ("" = none)
+	Auth    bool   // send valid Proxy-Authorization
+	Denied  bool   // the target host is denied.example (refused with 403 by --deny-domains)
+	ChunkedBody bool // the request body is sent chunked
 	Expect  bool   // send "Expect: 100-continue" (the body is sent at once all the same)
 	Body    string // POST body
 }
@@ -85,6 +91,7 @@ type ecaseJ struct {
 	Pipeline bool    // the client writes all requests before it reads the first response
 	Handler  bool    // through the http.Handler variant of the proxy (oracle only, the model is of the connection handler)
 	AttachRT bool    // the proxy's RoundTripper is wrapped: replies carrying X-Attach-Body get a body attached (header-only replies with an unexpected body)
+	Guard     bool     // the proxy requires basic auth and denies the host denied.example: it answers some requests itself
 	LogBody   bool     // the proxy logs bodies (--log-http body): the logging middleware must not alter the messages
 	RespRules []string // the proxy's --response-header rules
 	MustComplete bool // nothing in the scenario permits the proxy to close the connection: every exchange must be answered on it
@@ -98,6 +105,7 @@ type originSrv struct {
 	scripts map[string]*oresp       // path -> response
 	sent    map[string][]time.Time  // path -> time each piece was written
 	seenAE  map[string]string       // path -> Accept-Encoding the origin saw
+	stray   []string                // paths requested although no client of the run asked for them
 }
 
 func (o *originSrv) wire(r *oresp, gz bool) []byte {
@@ -200,6 +208,9 @@ func (o *originSrv) serve(c net.Conn) {
 		o.seenAE[path] = req.Header.Get("Accept-Encoding")
 		o.mu.Unlock()
 		if r == nil {
+			o.mu.Lock()
+			o.stray = append(o.stray, path)
+			o.mu.Unlock()
 			c.Write([]byte("HTTP/1.1 500 no script\r\nContent-Length: 0\r\n\r\n"))
 			continue
 		}
@@ -350,6 +361,7 @@ type rigOpts struct {
 	Handler bool   // http.Handler variant (TestingHTTPHandler)
 	Attach  bool   // RoundTripper wrapped by attachRT
 	LogBody bool   // --log-http body for the proxy module: the logging middleware reads and restores every body
+	Guard   bool   // --basic-auth u:p and --deny-domains denied\.example: the proxy refuses requests itself (407 / 403)
 	Rules   string // response-header rules (--response-header), joined by "\x00"
 }
 
@@ -387,6 +399,18 @@ func newProxyRigOpts(o rigOpts) *proxyRig {
 	})}
 	if o.LogBody {
 		cfg.LogHTTPMode = httplog.Body
+	}
+	if o.Guard {
+		cfg.BasicAuth = url.UserPassword("u", "p")
+		item, err := ruleset.ParseRegexpListItem("denied\\.example")
+		if err != nil {
+			panic(err)
+		}
+		dm, err := ruleset.NewRegexpMatcherFromList([]ruleset.RegexpListItem{item})
+		if err != nil {
+			panic(err)
+		}
+		cfg.DenyDomains = dm
 	}
 	if o.Rules != "" {
 		// as command/run configureHeadersModifiers does for --response-header: after the snapshot modifier,
@@ -593,7 +617,16 @@ type connResult struct {
 
 func renderReq(x xreq, origin, path string) []byte {
 	var sb bytes.Buffer
-	fmt.Fprintf(&sb, "%s http://%s%s %s\r\nHost: %s\r\n", x.Method, origin, path, x.Proto, origin)
+	host := origin
+	if x.Denied {
+		host = "denied.example"
+	}
+	// a body may itself look like a request for the same origin (ORIGIN, and CASE = this connection's path prefix)
+	x.Body = strings.ReplaceAll(strings.ReplaceAll(x.Body, "ORIGIN", origin), "CASE", path[:strings.LastIndex(path, "/")])
+	fmt.Fprintf(&sb, "%s http://%s%s %s\r\nHost: %s\r\n", x.Method, host, path, x.Proto, host)
+	if x.Auth {
+		sb.WriteString("Proxy-Authorization: Basic dTpw\r\n") // u:p
+	}
 	if x.Conn != "" {
 		fmt.Fprintf(&sb, "Connection: %s\r\n", x.Conn)
 	}
@@ -603,11 +636,22 @@ func renderReq(x xreq, origin, path string) []byte {
 	if x.Expect {
 		sb.WriteString("Expect: 100-continue\r\n")
 	}
-	if x.Method == "POST" {
+	hasBody := x.Method == "POST" || x.Method == "PUT"
+	if hasBody && x.ChunkedBody {
+		sb.WriteString("Transfer-Encoding: chunked\r\n")
+	} else if hasBody {
 		fmt.Fprintf(&sb, "Content-Length: %d\r\n", len(x.Body))
 	}
 	sb.WriteString("\r\n")
-	if x.Method == "POST" {
+	if hasBody && x.ChunkedBody {
+		half := len(x.Body) / 2
+		for _, part := range []string{x.Body[:half], x.Body[half:]} {
+			if part != "" {
+				fmt.Fprintf(&sb, "%x\r\n%s\r\n", len(part), part)
+			}
+		}
+		sb.WriteString("0\r\n\r\n")
+	} else if hasBody {
 		sb.WriteString(x.Body)
 	}
 	return sb.Bytes()
@@ -1018,6 +1062,24 @@ func corpus() []ecaseJ {
 		{Class: "response-rules:rename-add-rename", MustComplete: true, RespRules: []string{"%x-a", "X-A: more", "%x-a", "-x-b"}, Exchs: []exchJ{
 			{get("HTTP/1.1"), oresp{Proto: "HTTP/1.1", Code: 200, Reason: "OK", Fields: []hfield{{"X-A", "1"}, {"X-A", "2"}, {"X-B", "b"}, {"X-Keep", "k"}}, Framing: "cl", Body: "ok", HeadCL: -1, KeepOpen: true}},
 			{get("HTTP/1.1"), plain}}},
+		// requests the proxy refuses itself (407 without credentials, 403 for a denied host) that carry a body, then ordinary exchanges
+		{Class: "refused-request-with-body:407-then-retry", Guard: true, MustComplete: true, Exchs: []exchJ{
+			{xreq{Method: "POST", Proto: "HTTP/1.1", Body: "a=1&b=2"}, oresp{Local: true, Code: 407}},
+			{xreq{Method: "POST", Proto: "HTTP/1.1", Body: "a=1&b=2", Auth: true}, plain},
+			{xreq{Method: "GET", Proto: "HTTP/1.1", Auth: true}, plain}}},
+		{Class: "refused-request-with-body:407-chunked-body", Guard: true, MustComplete: true, Exchs: []exchJ{
+			{xreq{Method: "POST", Proto: "HTTP/1.1", Body: "a chunked request body", ChunkedBody: true}, oresp{Local: true, Code: 407}},
+			{xreq{Method: "GET", Proto: "HTTP/1.1", Auth: true}, plain}}},
+		{Class: "refused-request-with-body:407-body-looks-like-a-request", Guard: true, MustComplete: true, Exchs: []exchJ{
+			{xreq{Method: "POST", Proto: "HTTP/1.1", Body: "GET http://ORIGINCASE/smuggled HTTP/1.1\r\nHost: ORIGIN\r\nProxy-Authorization: Basic dTpw\r\n\r\n"}, oresp{Local: true, Code: 407}},
+			{xreq{Method: "GET", Proto: "HTTP/1.1", Auth: true}, plain},
+			{xreq{Method: "GET", Proto: "HTTP/1.1", Auth: true}, ch}}},
+		{Class: "refused-request-with-body:403-body-looks-like-a-request", Guard: true, MustComplete: true, Exchs: []exchJ{
+			{xreq{Method: "PUT", Proto: "HTTP/1.1", Auth: true, Denied: true, ChunkedBody: true, Body: "GET http://ORIGINCASE/smuggled HTTP/1.1\r\nHost: ORIGIN\r\nProxy-Authorization: Basic dTpw\r\n\r\n"}, oresp{Local: true, Code: 403}},
+			{xreq{Method: "GET", Proto: "HTTP/1.1", Auth: true}, plain}}},
+		{Class: "refused-request-with-body:407-large-body", Guard: true, MustComplete: true, Pipeline: true, Exchs: []exchJ{
+			{xreq{Method: "PUT", Proto: "HTTP/1.1", Body: strings.Repeat("0123456789abcdef", 1300)}, oresp{Local: true, Code: 407}},
+			{xreq{Method: "GET", Proto: "HTTP/1.1", Auth: true}, plain}}},
 		{Class: "chunked-with-trailers", MustComplete: true, Exchs: []exchJ{{get("HTTP/1.1"), chTr}, {get("HTTP/1.1"), plain}, {xreq{Method: "HEAD", Proto: "HTTP/1.1"}, plain}, {get("HTTP/1.1"), ch}}},
 	}...)
 }
@@ -1139,7 +1201,7 @@ func expected(x exchJ, sawGzip bool, relax304 bool, handler bool, hasRules bool)
 		skip = append(skip, n)
 	}
 	sort.Strings(skip)
-	return fmt.Sprintf("{| x_code := %d; x_reason := %s; x_fields := %s; x_absent := %s; x_body := %s; x_trailers := %s; x_origin := %s; x_skip := %s |}", o.Code, reason,
+	return fmt.Sprintf("{| x_local := "+coqfmt.Bool(o.Local)+"; x_code := %d; x_reason := %s; x_fields := %s; x_absent := %s; x_body := %s; x_trailers := %s; x_origin := %s; x_skip := %s |}", o.Code, reason,
 		coqfmt.List("(list N * list (list N))", fparts), coqfmt.StrList(anames), cstr(body), coqfmt.List("(list N * list (list N))", tparts),
 		coqfmt.Header(origin), coqfmt.StrList(skip))
 }
@@ -1154,7 +1216,7 @@ func reqClose(x xreq) bool {
 	return false
 }
 
-func renderE2E(c ecaseJ, res connResult, snaps []snapshot, sawAE []string, relax304 bool) string {
+func renderE2E(c ecaseJ, res connResult, snaps []snapshot, sawAE []string, relax304 bool, stray int) string {
 	var parts []string
 	for i := 0; i < res.Done && i < len(c.Exchs); i++ {
 		x := c.Exchs[i]
@@ -1204,7 +1266,7 @@ func renderE2E(c ecaseJ, res connResult, snaps []snapshot, sawAE []string, relax
 			min = 0
 		}
 		q := fmt.Sprintf("(mkReq %s %d %d %s)", coqfmt.Str(x.Req.Method), maj, min, coqfmt.Bool(reqClose(x.Req)))
-		parts = append(parts, fmt.Sprintf("{| e_closing := %s; e_req := %s; e_snap := %s; e_order := %s; e_exp := %s |}", coqfmt.Bool(c.Shutdown > 0), q, coqResp(rj),
+		parts = append(parts, fmt.Sprintf("{| e_local := "+coqfmt.Bool(x.Resp.Local)+"; e_closing := %s; e_req := %s; e_snap := %s; e_order := %s; e_exp := %s |}", coqfmt.Bool(c.Shutdown > 0), q, coqResp(rj),
 			coqfmt.StrList(order), expected(x, strings.Contains(sawAE[i], "gzip"), relax304, c.Handler, len(c.RespRules) > 0)))
 	}
 	var rparts []string
@@ -1222,8 +1284,8 @@ func renderE2E(c ecaseJ, res connResult, snaps []snapshot, sawAE []string, relax
 	}
 	v11 := c.Exchs[0].Req.Proto == "HTTP/1.1"
 	broken := res.Done < len(c.Exchs) && c.Exchs[res.Done].Resp.Break != ""
-	return fmt.Sprintf("{| e_rules := "+coqfmt.List("G16.Model.rule", rparts)+"; e_v11 := %s; e_want := %d; e_exchs := %s; e_stream := %s; e_closed := %s; e_broken := %s; e_must_complete := %s |}", coqfmt.Bool(v11), len(c.Exchs),
-		coqfmt.List("exch", parts), cstr(string(res.Stream)), coqfmt.Bool(res.Closed), coqfmt.Bool(broken), coqfmt.Bool(c.MustComplete))
+	return fmt.Sprintf("{| e_rules := "+coqfmt.List("G16.Model.rule", rparts)+"; e_v11 := %s; e_want := %d; e_exchs := %s; e_stream := %s; e_closed := %s; e_broken := %s; e_must_complete := %s; e_stray := %d |}", coqfmt.Bool(v11), len(c.Exchs),
+		coqfmt.List("exch", parts), cstr(string(res.Stream)), coqfmt.Bool(res.Closed), coqfmt.Bool(broken), coqfmt.Bool(c.MustComplete), stray)
 }
 
 // ---------------------------------------------------------------- driver
@@ -1243,7 +1305,7 @@ func runCases(cases []ecaseJ, wait time.Duration) (rendered []string, outs []any
 	org := newOrigin()
 	defer org.l.Close()
 	optsOf := func(c ecaseJ) rigOpts {
-		return rigOpts{Handler: c.Handler, Attach: c.AttachRT, LogBody: c.LogBody, Rules: strings.Join(c.RespRules, "\x00")}
+		return rigOpts{Handler: c.Handler, Attach: c.AttachRT, LogBody: c.LogBody, Guard: c.Guard, Rules: strings.Join(c.RespRules, "\x00")}
 	}
 	rigs := map[rigOpts]*proxyRig{}
 	for _, c := range cases {
@@ -1271,6 +1333,9 @@ func runCases(cases []ecaseJ, wait time.Duration) (rendered []string, outs []any
 			org.mu.Lock()
 			for i := range c.Exchs {
 				paths[i] = fmt.Sprintf("/c%d/x%d", ci, i)
+				if c.Exchs[i].Resp.Local {
+					continue // the proxy answers itself; should the request reach the origin all the same it is a stray one
+				}
 				r := c.Exchs[i].Resp
 				org.scripts[paths[i]] = &r
 			}
@@ -1284,6 +1349,9 @@ func runCases(cases []ecaseJ, wait time.Duration) (rendered []string, outs []any
 				if attempt > 0 {
 					for i := range paths {
 						paths[i] += "r"
+						if c.Exchs[i].Resp.Local {
+							continue
+						}
 						r := c.Exchs[i].Resp
 						org.mu.Lock()
 						org.scripts[paths[i]] = &r
@@ -1330,11 +1398,18 @@ func runCases(cases []ecaseJ, wait time.Duration) (rendered []string, outs []any
 				snaps[i] = rig.snaps[p]
 				sawAE[i] = org.seenAE[p]
 			}
+			stray := 0
+			prefix := paths[0][:strings.LastIndex(paths[0], "/")+1]
+			for _, sp := range org.stray {
+				if strings.HasPrefix(sp, prefix) {
+					stray++
+				}
+			}
 			org.mu.Unlock()
 			rig.mu.Unlock()
-			rendered[ci] = renderE2E(c, res, snaps, sawAE, false)
+			rendered[ci] = renderE2E(c, res, snaps, sawAE, false, stray)
 			if c.Handler {
-				relaxedRendered[ci] = renderE2E(c, res, snaps, sawAE, true)
+				relaxedRendered[ci] = renderE2E(c, res, snaps, sawAE, true, stray)
 			}
 			tail := res.Stream
 			if len(tail) > 160 {
